@@ -107,7 +107,11 @@ fn c08_step_recurse_player() {
     let (pc, pp) = (q3(), [q3(), q3()]);
     let r0 = [1.0, -2.0];
     let mut r = r0;
-    let node = Player { num: who, infoset: 0, actions: Box::new([Node::Terminal(u[0]), Node::Terminal(u[1])]) as Box<[Node]> };
+    let node = Player {
+        num: who,
+        infoset: 0,
+        actions: Box::new([Node::Terminal(u[0]), Node::Terminal(u[1])]) as Box<[Node]>,
+    };
     let seen = core::cell::Cell::new(0u32);
     let reach_ok = core::cell::Cell::new(true);
     let (value, sub) = recurse_player(&node, pc, pp, &st, r.iter_mut(), |next, p_next| {
@@ -117,7 +121,11 @@ fn c08_step_recurse_player() {
             PlayerNum::One => (0, 1),
             PlayerNum::Two => (1, 0),
         };
-        if idx >= 2 || !core::ptr::eq(next, &node.actions[idx]) || p_next[own] != pp[own] * st[idx] || p_next[other] != pp[other] {
+        if idx >= 2
+            || !core::ptr::eq(next, &node.actions[idx])
+            || p_next[own] != pp[own] * st[idx]
+            || p_next[other] != pp[other]
+        {
             reach_ok.set(false);
         }
         match next {
@@ -126,10 +134,19 @@ fn c08_step_recurse_player() {
         }
     });
     let e = effect(who, pc, pp, st, u);
-    kani::cover!(matches!(who, PlayerNum::Two) && pc == 0.25 && pp[0] == 0.5 && u[0] != u[1] && a == 0.25, "player two below a chance outcome of probability 1/4");
-    kani::cover!(matches!(who, PlayerNum::One) && pp[1] == 0.5 && u[0] > u[1], "player one with opponent reach 1/2");
+    kani::cover!(
+        matches!(who, PlayerNum::Two) && pc == 0.25 && pp[0] == 0.5 && u[0] != u[1] && a == 0.25,
+        "player two below a chance outcome of probability 1/4"
+    );
+    kani::cover!(
+        matches!(who, PlayerNum::One) && pp[1] == 0.5 && u[0] > u[1],
+        "player one with opponent reach 1/2"
+    );
     assert!(seen.get() == 2 && reach_ok.get(), "C08 step: every action must be explored once, in order, with only the acting player's reach multiplied by its probability");
-    assert!(near(value, e.value), "C08 step: node value is not the strategy-weighted value of the children");
+    assert!(
+        near(value, e.value),
+        "C08 step: node value is not the strategy-weighted value of the children"
+    );
     for i in 0..2 {
         assert!(near(r[i] - sub, r0[i] + e.dreg[i]), "C08 step: regret increment is not chance-reach x opponent-reach x (action value - node value), signed for the acting player");
     }
@@ -155,9 +172,18 @@ fn c08_step_update_cum_strat() {
     kani::cover!(own == 0.25 && a == 0.25, "reach 1/4, strategy (1/4, 3/4)");
     let cs = mt.cum_strat.get_mut().unwrap();
     for i in 0..2 {
-        assert!(near(plain.cum_strat[i], s0[i] + own * st[i]), "C08 step: average-strategy increment is not own-reach x current strategy");
-        assert!(near(cs[i], s0[i] + own * st[i]), "C06 step: multi-thread average-strategy increment differs from the single-thread one");
-        assert!(plain.cum_regret[i] == [1.0, -2.0][i] && plain.strat[i] == st[i], "C08 step: average-strategy update touched regrets or the current strategy");
+        assert!(
+            near(plain.cum_strat[i], s0[i] + own * st[i]),
+            "C08 step: average-strategy increment is not own-reach x current strategy"
+        );
+        assert!(
+            near(cs[i], s0[i] + own * st[i]),
+            "C06 step: multi-thread average-strategy increment differs from the single-thread one"
+        );
+        assert!(
+            plain.cum_regret[i] == [1.0, -2.0][i] && plain.strat[i] == st[i],
+            "C08 step: average-strategy update touched regrets or the current strategy"
+        );
     }
     core::mem::forget(plain);
     core::mem::forget(mt);
@@ -168,7 +194,14 @@ fn c08_step_update_cum_strat() {
 #[kani::unwind(4)]
 fn c10_full_chance_enumerates_all() {
     let probs = [0.25, 0.5, 0.25];
-    let node = Chance { outcomes: Box::new([Node::Terminal(1.0), Node::Terminal(2.0), Node::Terminal(3.0)]) as Box<[Node]>, infoset: 0 };
+    let node = Chance {
+        outcomes: Box::new([
+            Node::Terminal(1.0),
+            Node::Terminal(2.0),
+            Node::Terminal(3.0),
+        ]) as Box<[Node]>,
+        infoset: 0,
+    };
     let fc = FullChance(&probs);
     let mut n = 0usize;
     let mut ok = true;
@@ -216,7 +249,10 @@ impl CachedPayoff for ChildCache {
 #[kani::unwind(3)]
 fn c06_recurse_multi_chance_and_cached_root() {
     let u = [pay(), pay()];
-    let node = Node::Chance(Chance { outcomes: Box::new([Node::Terminal(9.0), Node::Terminal(-9.0)]) as Box<[Node]>, infoset: 0 });
+    let node = Node::Chance(Chance {
+        outcomes: Box::new([Node::Terminal(9.0), Node::Terminal(-9.0)]) as Box<[Node]>,
+        infoset: 0,
+    });
     let kids = match &node {
         Node::Chance(c) => [&c.outcomes[0] as *const Node, &c.outcomes[1] as *const Node],
         _ => unreachable!(),
@@ -224,14 +260,42 @@ fn c06_recurse_multi_chance_and_cached_root() {
     let probs = [0.25, 0.75];
     let chance = [FullChance(&probs)];
     let none: [MutexRegretInfoset; 0] = [];
-    let cache = ChildCache { root: &node as *const Node, kids, vals: u };
-    let v = recurse_multi(&node, &chance[..], [&none[..], &none[..]], q3(), [q3(), q3()], &cache);
+    let cache = ChildCache {
+        root: &node as *const Node,
+        kids,
+        vals: u,
+    };
+    let v = recurse_multi(
+        &node,
+        &chance[..],
+        [&none[..], &none[..]],
+        q3(),
+        [q3(), q3()],
+        &cache,
+    );
     kani::cover!(u[0] != u[1], "outcome values differ");
-    assert!(near(v, 0.25 * u[0] + 0.75 * u[1]), "C08 step: chance node value is not the probability-weighted sum over every outcome");
+    assert!(
+        near(v, 0.25 * u[0] + 0.75 * u[1]),
+        "C08 step: chance node value is not the probability-weighted sum over every outcome"
+    );
     // the root itself cached: nothing below is visited, the cached value is the result
-    let cache2 = ChildCache { root: core::ptr::null(), kids: [&node as *const Node, core::ptr::null()], vals: [5.0, 0.0] };
-    let v2 = recurse_multi(&node, &chance[..], [&none[..], &none[..]], 1.0, [1.0, 1.0], &cache2);
-    assert!(v2 == 5.0, "C06 cache: a cached node must return its cached payoff");
+    let cache2 = ChildCache {
+        root: core::ptr::null(),
+        kids: [&node as *const Node, core::ptr::null()],
+        vals: [5.0, 0.0],
+    };
+    let v2 = recurse_multi(
+        &node,
+        &chance[..],
+        [&none[..], &none[..]],
+        1.0,
+        [1.0, 1.0],
+        &cache2,
+    );
+    assert!(
+        v2 == 5.0,
+        "C06 cache: a cached node must return its cached payoff"
+    );
     core::mem::forget(node);
 }
 
@@ -241,11 +305,20 @@ fn c06_recurse_multi_chance_and_cached_root() {
 #[kani::unwind(3)]
 fn c08_recurse_single_chance_over_terminals() {
     let u = [pay(), pay()];
-    let node = Node::Chance(Chance { outcomes: Box::new([Node::Terminal(u[0]), Node::Terminal(u[1])]) as Box<[Node]>, infoset: 0 });
+    let node = Node::Chance(Chance {
+        outcomes: Box::new([Node::Terminal(u[0]), Node::Terminal(u[1])]) as Box<[Node]>,
+        infoset: 0,
+    });
     let probs = [0.25, 0.75];
     let chance = [FullChance(&probs)];
     let none: [RefCell<RegretInfoset>; 0] = [];
-    let v = recurse_single(&node, &chance[..], [&none[..], &none[..]], q3(), [q3(), q3()]);
+    let v = recurse_single(
+        &node,
+        &chance[..],
+        [&none[..], &none[..]],
+        q3(),
+        [q3(), q3()],
+    );
     kani::cover!(u[0] != u[1], "outcome values differ");
     assert!(near(v, 0.25 * u[0] + 0.75 * u[1]), "C08 step: chance node value is not the probability-weighted sum over every outcome (single-thread traversal)");
     core::mem::forget(node);
@@ -260,7 +333,11 @@ fn c08_recurse_single_one_action_node() {
     let who = any_player();
     let u = pay();
     let (pc, pp) = (q3(), [q3(), q3()]);
-    let node = Node::Player(Player { num: who, infoset: 0, actions: Box::new([Node::Terminal(u)]) as Box<[Node]> });
+    let node = Node::Player(Player {
+        num: who,
+        infoset: 0,
+        actions: Box::new([Node::Terminal(u)]) as Box<[Node]>,
+    });
     let mine = [RefCell::new(RegretInfoset {
         cum_regret: Box::new([1.5]) as Box<[f64]>,
         cum_strat: Box::new([0.5]) as Box<[f64]>,
@@ -278,10 +355,16 @@ fn c08_recurse_single_one_action_node() {
         PlayerNum::Two => pp[1],
     };
     kani::cover!(pp[0] != pp[1], "the two players' reach differ");
-    assert!(v == u, "C08 step: value of a one-action node is its child's value");
+    assert!(
+        v == u,
+        "C08 step: value of a one-action node is its child's value"
+    );
     let m = mine[0].borrow();
     assert!(m.cum_strat[0] == 0.5 + own, "C08 step: average strategy must be updated with the acting player's own reach (single-thread traversal)");
-    assert!(m.cum_regret[0] == 1.5, "C08 step: regret of the only action must not change");
+    assert!(
+        m.cum_regret[0] == 1.5,
+        "C08 step: regret of the only action must not change"
+    );
     drop(m);
     core::mem::forget(node);
     core::mem::forget(mine);
@@ -298,22 +381,39 @@ fn c12_step_mirror_and_scale() {
     let st = [a, 1.0 - a];
     let (pc, pp) = (q3(), [q3(), q3()]);
     let run = |who: PlayerNum, pay: [f64; 2], reach: [f64; 2]| -> (f64, [f64; 2]) {
-        let node = Player { num: who, infoset: 0, actions: Box::new([Node::Terminal(pay[0]), Node::Terminal(pay[1])]) as Box<[Node]> };
+        let node = Player {
+            num: who,
+            infoset: 0,
+            actions: Box::new([Node::Terminal(pay[0]), Node::Terminal(pay[1])]) as Box<[Node]>,
+        };
         let mut r = [0.0, 0.0];
-        let (value, sub) = recurse_player(&node, pc, reach, &st, r.iter_mut(), |next, _| match next {
-            Node::Terminal(x) => *x,
-            _ => 0.0,
-        });
+        let (value, sub) =
+            recurse_player(&node, pc, reach, &st, r.iter_mut(), |next, _| match next {
+                Node::Terminal(x) => *x,
+                _ => 0.0,
+            });
         core::mem::forget(node);
         (value, [r[0] - sub, r[1] - sub])
     };
     let (v1, r1) = run(PlayerNum::One, u, pp);
     let (v2, r2) = run(PlayerNum::Two, [-u[0], -u[1]], [pp[1], pp[0]]);
     let (v3, r3) = run(PlayerNum::One, [2.0 * u[0], 2.0 * u[1]], pp);
-    kani::cover!(u[0] != u[1] && pp[0] != pp[1], "asymmetric payoffs and reach");
-    assert!(v2 == -v1, "C12 mirror: exchanging the players while negating payoffs must negate the node value");
-    assert!(r2[0] == r1[0] && r2[1] == r1[1], "C12 mirror: exchanging the players while negating payoffs must give the same regrets");
-    assert!(v3 == 2.0 * v1 && r3[0] == 2.0 * r1[0] && r3[1] == 2.0 * r1[1], "C12 scale: multiplying payoffs by c must multiply value and regret increments by c");
+    kani::cover!(
+        u[0] != u[1] && pp[0] != pp[1],
+        "asymmetric payoffs and reach"
+    );
+    assert!(
+        v2 == -v1,
+        "C12 mirror: exchanging the players while negating payoffs must negate the node value"
+    );
+    assert!(
+        r2[0] == r1[0] && r2[1] == r1[1],
+        "C12 mirror: exchanging the players while negating payoffs must give the same regrets"
+    );
+    assert!(
+        v3 == 2.0 * v1 && r3[0] == 2.0 * r1[0] && r3[1] == 2.0 * r1[1],
+        "C12 scale: multiplying payoffs by c must multiply value and regret increments by c"
+    );
 }
 
 #[cfg(test)]
